@@ -1,5 +1,6 @@
 use crate::debugger::error::Error;
 use crate::debugger::error::Error::{Ptrace, Waitpid};
+use nix::errno::Errno;
 use nix::sys;
 use nix::sys::personality::Persona;
 use nix::sys::ptrace::Options;
@@ -9,7 +10,7 @@ use nix::sys::wait::{WaitPidFlag, waitpid};
 use nix::unistd::{ForkResult, Pid, fork};
 use os_pipe::PipeWriter;
 use std::collections::HashSet;
-use std::iter;
+use std::fs;
 use std::marker::PhantomData;
 use std::os::unix::process::CommandExt;
 use std::path::PathBuf;
@@ -105,32 +106,44 @@ impl Child<Installed> {
         let cwd = external_process.cwd().map(ToOwned::to_owned);
 
         let mut interrupted_threads = HashSet::new();
-        // two interrupt rounds, like in [`Tracer`]
-        for _ in 0..2 {
-            let treads_iter = iter::once(pid);
-            let threads: Vec<Pid> = if let Some(tasks) = external_process.tasks() {
-                treads_iter
-                    .chain(tasks.iter().map(|tid| Pid::from_raw(tid.as_u32() as i32)))
-                    .collect()
-            } else {
-                treads_iter.collect()
+        // interrupt rounds, like in [`Tracer`], until no new thread shows up:
+        // the process may create threads while it is being attached, so the thread list
+        // is read again from procfs in every round
+        loop {
+            let threads: Vec<Pid> = match fs::read_dir(format!("/proc/{pid}/task")) {
+                Ok(tasks) => tasks
+                    .filter_map(|task| task.ok()?.file_name().to_str()?.parse().ok())
+                    .map(Pid::from_raw)
+                    .collect(),
+                Err(_) => vec![pid],
             };
 
             // remove already interrupted threads
-            let threads: Vec<Pid> = threads
+            let mut threads: Vec<Pid> = threads
                 .into_iter()
                 .filter(|t| !interrupted_threads.contains(t))
                 .collect();
+            if threads.is_empty() {
+                break;
+            }
 
+            let mut gone = vec![];
             for tid in &threads {
-                sys::ptrace::seize(
+                match sys::ptrace::seize(
                     *tid,
                     Options::PTRACE_O_TRACECLONE
                         .union(Options::PTRACE_O_TRACEEXEC)
                         .union(Options::PTRACE_O_TRACEEXIT),
-                )
-                .map_err(Error::Attach)?;
+                ) {
+                    Ok(_) => {}
+                    // a thread created by an already seized thread is traced from its birth
+                    Err(Errno::EPERM) if *tid != pid => {}
+                    // a thread that finished in the meantime
+                    Err(Errno::ESRCH) if *tid != pid => gone.push(*tid),
+                    Err(e) => return Err(Error::Attach(e)),
+                }
             }
+            threads.retain(|t| !gone.contains(t));
 
             for tid in &threads {
                 sys::ptrace::interrupt(*tid).map_err(Error::Attach)?;
